@@ -129,6 +129,12 @@ pub const EXTRA: &[&str] = &[
     "8/8/8/8/8/k7/8/KB6 b - - 10 50",
     "4k3/8/8/8/8/8/8/4K2R w K - 99 80",
     "4k3/8/8/8/8/8/8/4K2R w K - 98 80",
+    // castling is available and natural (the hash move is played without a legality test: positions
+    // that differ only in their rights must not share entries)
+    "r1bqk2r/pppp1ppp/2n2n2/2b1p3/2B1P3/2N2N2/PPPP1PPP/R1BQK2R w KQkq - 6 5",
+    "r1bqk2r/pppp1ppp/2n2n2/2b1p3/2B1P3/2NP1N2/PPP2PPP/R1BQK2R b KQkq - 0 5",
+    "r3k2r/pppq1ppp/2npbn2/2b1p3/2B1P3/2NPBN2/PPPQ1PPP/R3K2R w KQkq - 4 8",
+    "rnbqk2r/pppp1ppp/5n2/2b1p3/2B1P3/5N2/PPPP1PPP/RNBQK2R w KQkq - 4 4",
     // exactly one legal move (forced-move shortcuts are a classic special case)
     "k7/8/8/8/8/8/5PP1/r5K1 w - - 0 1",
     "4k3/8/8/8/8/8/4q3/4K3 w - - 0 1",
